@@ -516,6 +516,23 @@ def judge(acc, box, head, where, desc, rpl, use_git=True, git_modes=("normal", "
                 continue
             grecs = wm.parse_porcelain_z(p.stdout)
             if grecs != exp[mode][0]:
+                # git trusts the stat fields of the index dulwich wrote.  Ask git again with an index that holds the same
+                # (mode, id, stage, path) entries but no stat data (git then compares contents): if that agrees with the
+                # model, the model is right and the index on disk carries stat data that make a differing file look
+                # unchanged - dulwich's doing, not a harness problem.
+                tmp2 = os.path.join(box.root, ".git", "index.c18nostat")
+                ls = git(["ls-files", "-s", "-z"], cwd=box.root, check=False)
+                if os.path.exists(tmp2):
+                    os.unlink(tmp2)
+                git(["update-index", "-z", "--index-info"], cwd=box.root, check=False, env={"GIT_INDEX_FILE": tmp2}, input=ls.stdout)
+                p2 = git(["status", "--porcelain=v1", "-z", "--no-renames", "-u" + mode], cwd=box.root, check=False, env={"GIT_INDEX_FILE": tmp2})
+                if os.path.exists(tmp2):
+                    os.unlink(tmp2)
+                if ls.returncode == 0 and p2.returncode == 0 and wm.parse_porcelain_z(p2.stdout) == exp[mode][0]:
+                    acc.violation("%s:index-file:stat-data-make-git-miss-a-difference" % where,
+                                  "%s: with the index as written git status (-u%s) reports %r; with the same entries and no stat data it reports %r (= model)" % (
+                                      desc, mode, sorted(grecs), sorted(exp[mode][0])), rpl)
+                    continue
                 raise HarnessError("reference model and C git disagree on status (-u%s) at %s:\n model %r\n git   %r\n head %r\n index %r\n wd %r" % (
                     mode, desc, sorted(exp[mode][0]), sorted(grecs), head, idx, {k: (v if v[0] != "f" else ("f", v[1][:8], v[2])) for k, v in wd.items()}))
         tmp = os.path.join(box.root, ".git", "index.c18copy")
